@@ -287,7 +287,15 @@ def finish(ctx, module, write_evidence=True):
         print(f"KNOWN-FINDING: property={ctx.pid} {key} ({n} witnesses): {ent.get('what', ctx.known_examples.get(key, ''))}")
     code = 0
     if ctx.violations:
+        seen, per_key = set(), collections.Counter()
+        uniq = []
         for v in ctx.violations:
+            if v["replay"] in seen or per_key[v["key"]] >= MAX_REPLAYS_PER_KEY:
+                continue
+            seen.add(v["replay"])
+            per_key[v["key"]] += 1
+            uniq.append(v)
+        for v in uniq:
             print(f"VIOLATION property={ctx.pid} replay={v['replay']}")
             print(f"  key={v['key']} what={v['what']}")
         for k, n in ctx.violation_counts.items():
